@@ -46,3 +46,5 @@ if [ -n "$extra" ]; then
   for f in $extra/*.diff; do n=$(basename $f .diff); run_one "$n" "$f" "/tmp/extra_detect/$n.txt"; done
 fi
 git -C /repo status --short | head -3
+# leave no simulator binary behind that was built from a patched tree
+( cd /verif && ./setup.sh > /dev/null 2>&1 )
